@@ -100,10 +100,15 @@ def mentions(text, name):
 
 
 class PyFacts(ir.Client):
+    inline_fn = None     # when set: single-assignment locals of this function are inlined into condition atoms
+
     def __init__(self, on_stmt=None, on_cond=None, gen=None):
         self.on_stmt, self.on_cond, self.gen = on_stmt, on_cond, gen
 
     def assume(self, cond, positive, cfg):
+        if self.inline_fn is not None:
+            from . import pysym
+            cond = pysym.inline(cond, self.inline_fn)
         return cfg | frozenset(atoms(cond, positive))
 
     def cond(self, cond, cfg):
